@@ -64,6 +64,38 @@ def run(chk: Check) -> None:
     terminal_notifications(chk)
     close_once(chk)
     wait_release(chk)
+    # the views stay in agreement only if nothing transitions again once a terminal state was entered (shared with C01)
+    from .c01 import atom_terminal_guard, terminal_hooks_cannot_fail_on_futures
+    atom_terminal_guard(chk)
+    terminal_hooks_cannot_fail_on_futures(chk)
+    subscription_idempotent(chk)
+
+
+def subscription_idempotent(chk: Check) -> None:
+    """"Listeners receive exactly one terminal notification": fire_event calls every element of the listener container once, so
+    the container must hold a listener once however often it was added (a set, or an add guarded by a membership test), and
+    removing it must remove it altogether."""
+    prog = chk.prog
+    eh = prog.cls('event_helper.EventHelper')
+    init = eh.methods['__init__']
+    add = prog.view(eh.methods['add_listener'])
+    inits = [n for n in ast.walk(init.node) if isinstance(n, (ast.Assign, ast.AnnAssign)) and norm(n.targets[0] if isinstance(n, ast.Assign) else n.target) == 'self._listeners']
+    is_set = bool(inits) and all(isinstance(n.value, ast.Call) and norm(n.value.func) in ('set', 'weakref.WeakSet', 'WeakSet') or isinstance(n.value, ast.Set) for n in inits)
+    ff = chk.ctx.facts.analyse(add)
+    adds = [c for c in calls_in_func(add) if isinstance(c.func, ast.Attribute) and norm(c.func.value) == 'self._listeners' and c.func.attr in ('add', 'append', 'insert', 'extend', 'update')]
+    ok = bool(adds)
+    for c in adds:
+        if c.func.attr == 'add' and is_set:
+            continue
+        lp = add.params[1]
+        guarded = all(any(a[0] == 'F' and norm_key(a[1]) == f'{lp} in self._listeners' for a in fs if len(a) == 2) for _, fs in ff.site_facts(c))
+        ok &= guarded
+    chk.ob('OWN-terminal-event', add, ok, 'adding a listener that is already subscribed does not subscribe it a second time (set semantics): one notification per event per listener, '
+           'and one removal unsubscribes it', node=adds[0] if adds else None, kind='subscription-idempotent')
+
+
+def norm_key(k) -> str:
+    return k if isinstance(k, str) else str(k)
 
 
 # ---------------------------------------------------------------------- 1. DISP entering / entered
